@@ -76,6 +76,8 @@ def main():
             attrs = {"h": pyc.register_handler(evs, **kw)(handler) if evs else None,
                      "bytecode_caching_allowed": ts.get("caching", True), "requires_ast_bookkeeping": ts.get("bookkeeping", True),
                      "global_guards_enabled": ts.get("guards", True)}
+            # where the class is defined: a user script (__main__, no package version) unless the configuration says otherwise
+            attrs["__module__"] = ts.get("module", "__main__")
             if ts["accept"] == "ALL":
                 attrs["instrument_all_files"] = True
             else:
